@@ -60,6 +60,8 @@ func c14Life(c *mon.Ctx, r *mon.Rand) {
 	case "two-one-dead":
 		opts.HostPorts = []string{mon.DeadPort()}
 	}
+	m3ViaConfiguration = r.Chance(1, 6) // build the reporter through m3.Configuration where the options allow it
+	defer func() { m3ViaConfiguration = false }()
 	env, err := newM3EnvPorts(nSinks, opts, inj.Hook, dest == "closed-mid-run")
 	if err != nil {
 		c.Inconclusive("NewReporter: " + err.Error())
